@@ -14,7 +14,17 @@ import copy
 import itertools
 
 
+CATALOG_KIND = 'rich'      # 'no_default': the same catalog without a default namespace (unqualified names cannot be resolved)
+
+
 def rich_catalog():
+    c = _rich_catalog()
+    if CATALOG_KIND == 'no_default':
+        del c['default_namespace']
+    return c
+
+
+def _rich_catalog():
     return dict(integrations=['int1', 'int2', 'files', 'views', {'name': 'proj', 'type': 'project'}], default_namespace='mindsdb',
                 predictor_metadata=[dict(name='pred', integration_name='mindsdb'), dict(name='pred2', integration_name='mindsdb'),
                                     dict(name='pred', integration_name='proj'),
